@@ -55,7 +55,7 @@ theorem front_total (st : Front.St) (eval : Arg → Front.EvalOut) (loc : Bool) 
   Front.assemble_no_panic st eval loc
 
 /-- C06.e  The region machine never panics on a non-rewrite operation in any state satisfying the region
-invariant (the three `assert_eq!` on put counts, `remaining()` underflow). Rewrites: `Seg.step_no_panic_partial`
+invariant (the three `assert_eq!` on put counts, `remaining()` underflow). Rewrites: `Seg.step_no_panic`, `Seg.history_no_panic`
 and `Layout.run_no_panic` (Props/C05.lean). -/
 theorem region_step_total (s : Seg.State) (op : Seg.Op) (inv : Seg.Inv s) (wf : Seg.Op.wf s op)
     (nr : ∀ a d, op ≠ .rewrite a d) : (Seg.step s op).2 ≠ .panic :=
